@@ -522,6 +522,50 @@ pub fn run_c20(a: &Args) {
         ctx::nontrivial(case.hash());
         ctx::count(&format!("shapes:{}", fam));
     }
+    // ---- threshold shapes: graphs barely above the 20-node parallel threshold run inside a pool
+    // with more worker threads than nodes; chains of 62..66 diamonds (2^62..2^66 shortest paths)
+    let base2 = 20_000_000u64;
+    let big_pool = rayon::ThreadPoolBuilder::new().num_threads(48).build().expect("pool");
+    let mut specials: Vec<(GCase, bool)> = vec![];
+    {
+        let mut rng = Rng::new(mix(a.seed, 0x7420));
+        for n in [21usize, 22, 25, 31, 33, 40] {
+            for specs in [Specs::kind(true, false, true), Specs::kind(false, true, true)] {
+                let w = *rng.pick(&[WClass::Unweighted, WClass::Exact]);
+                specials.push((gen_case(specs, "gnp_sparse", n, w, &GenOpts { self_loops: true, parallel: true, shuffle_edges: true }, &mut rng), true));
+            }
+        }
+        for k in [62usize, 63, 64, 66] {
+            for w in [WClass::Unweighted, WClass::Exact] {
+                specials.push((diamond_chain(Specs::kind(k % 2 == 0, false, false), k, w, &mut rng), false));
+            }
+        }
+    }
+    for (i, (case, all)) in specials.into_iter().enumerate() {
+        let this = base2 + i as u64;
+        if !ctx::mine(this) {
+            continue;
+        }
+        ctx::case_desc(json!({"family": case.family, "n": case.n(), "kind": case.specs.kind_label(), "wclass": format!("{:?}", case.wclass)}));
+        let g = case.build();
+        let names: Vec<String> = g.get_all_nodes().iter().map(|n| n.name.clone()).collect();
+        let mut r = Rec { kind: kind_class(&g), buf: String::new(), calls: 0, graph: json!({"family": case.family, "n": case.n(), "kind": case.specs.kind_label()}), dump: vec![], want_dump: false };
+        for w in [false, true] {
+            for b in [false, true] {
+                r.call("betweenness_centrality", format!("{},{} (48-thread pool)", w, b), || big_pool.install(|| res(betweenness::betweenness_centrality(&g, w, b), |m| fmap(&m))));
+                r.call("closeness_centrality", format!("{},{} (48-thread pool)", w, b), || big_pool.install(|| res(closeness::closeness_centrality(&g, w, b), |m| fmap(&m))));
+            }
+            if all {
+                r.call("all_pairs", format!("{} (48-thread pool)", w), || big_pool.install(|| res(dijkstra::all_pairs(&g, w, None, None, false, true), |m| format!("{}", m.len()))));
+                r.call("multi_source", format!("{} (48-thread pool)", w), || big_pool.install(|| res(dijkstra::multi_source(&g, w, names.clone(), names.first().cloned(), None, true, true), |m| format!("{}", m.len()))));
+                r.call("get_all_shortest_paths_involving", format!("{} (48-thread pool)", w), || big_pool.install(|| format!("{}", dijkstra::get_all_shortest_paths_involving(&g, names[0].clone(), w).len())));
+                r.call("clustering", format!("{},first (48-thread pool)", w), || big_pool.install(|| res(cluster::clustering(&g, w, Some(&names[..1])), |m| fmap(&m))));
+            }
+        }
+        ctx::eval(r.calls);
+        ctx::nontrivial(case.hash());
+        ctx::count(if all { "shapes:more-worker-threads-than-nodes" } else { "shapes:diamond-chain-2^62-paths" });
+    }
     ctx::note("digests", json!(digests));
     ctx::note("covered_functions", json!(COVERED));
 }
